@@ -327,7 +327,19 @@ func (e *ev) evalNumber(s map[string]any, f float64, apply func(string, Verdict)
 		apply("maximum", b2v(f <= max))
 	}
 	if m, ok := num(s["multipleOf"]); ok {
-		if m <= 0 || !dyadic(m) || !dyadic(f) {
+		if m > 0 && m == math.Trunc(m) && m < 1<<53 && f == math.Trunc(f) && !dyadic(f) {
+			// an integer divisor and an integer-valued number of any magnitude: float64 remainder is exact.
+			// An exact multiple is valid whatever the size of the quotient; a non-multiple is invalid, but when the
+			// quotient no longer fits the 53-bit mantissa a float64 division cannot tell, so that case carries no verdict.
+			switch {
+			case math.Mod(f, m) == 0:
+				apply("multipleOf", Accept)
+			case math.Abs(f/m) < 1<<53:
+				apply("multipleOf", Reject)
+			default:
+				apply("multipleOf", Contested)
+			}
+		} else if m <= 0 || !dyadic(m) || !dyadic(f) {
 			apply("multipleOf", Contested)
 		} else {
 			q := f / m
